@@ -54,6 +54,33 @@ def bind_fixtures() -> int:
     return n + 1
 
 
+def touch_all(m) -> None:
+    """Use every other public accessor first (a readout's answers must not depend on what was asked before)."""
+    from han import dlde
+
+    for f in (lambda: m.identification_line, lambda: m.expected_checksum, lambda: m.payload, lambda: m.end_line, lambda: m.data_lines,
+              lambda: str(m), lambda: len(m), lambda: m.message_type, lambda: dlde.decode_p1_readout(m), lambda: dlde.parse_p1_readout(m)):
+        try:
+            f()
+        except Exception:  # noqa: BLE001
+            pass
+
+
+def readout_errors_all_orders(m) -> list[tuple[str, str]]:
+    """The C04 oracle on the object as it is, on a clone whose other accessors were used first, and asked twice."""
+    from han import dlde
+
+    errs = readout_errors(m)
+    try:
+        clone = dlde.DataReadout(m.as_bytes)
+    except Exception:  # noqa: BLE001
+        return errs
+    touch_all(clone)
+    errs += [(k, "after using the other accessors first: " + msg) for k, msg in readout_errors(clone)]
+    errs += [(k, "asked a second time: " + msg) for k, msg in readout_errors(m)]
+    return errs
+
+
 def readout_errors(m, via: str = "") -> list[tuple[str, str]]:
     """C04's oracle on one DataReadout object (exceptions are C14's business: recorded as kind 'raises')."""
     B = m.as_bytes
